@@ -1,4 +1,7 @@
 import I18n.Model.Hdr
+import I18n.Generated.Domains
+import I18n.Generated.GettextHdr
+import I18n.Generated.HdrChk
 import I18n.Driver.Util
 import I18n.Driver.Charset
 /-!
@@ -21,6 +24,10 @@ as `~`, empty lists / tables as `_`.
 `msgid/msgctxt/obsolete/occurrences/msgid_plural/msgstr/msgstr0/flags` (occurrences `,`-separated `path:line`);
 `<encs>` = `;`-separated `<enc>=<dec>/<codec|~>/<joined outcome>:<per-character outcomes>` (see Driver/Charset);
 `<chars>` = `~` (no language) | `^` (no list) | `,`-separated characters.
+
+`g<op>` = the same operation through the definitions REGENERATED from the source (`Generated.Domains`, `Generated.GettextHdr`,
+`Generated.HdrChk`; proved equal to the model in `Props/C15Tie.lean`): `gparse`, `gemail` (→ `ok <special> <dotless>` | `err <exc>`),
+`gcomments`, `gheaders`, `gmime` (`err crash` for any exception), `gproject`, `gtranslator`; an exception is `err <name>`.
 -/
 namespace I18n.Driver.Hdr
 open I18n I18n.Hdr I18n.Generated
@@ -96,8 +103,8 @@ def entryOf (s : String) : Entry :=
 
 def entriesOf (s : String) : List Entry := (listOf "|" s).map entryOf
 
-/-- C20's charset fragment on the measured classification of every encoding of the line -/
-def charsetCheck (isTemplate : Bool) (chars encs : String) : CharsetCheck :=
+/-- the world of C20's charset fragment as measured for every encoding of the line: the codec environment and `ctx.language`'s characters -/
+def charsetEnv (chars encs : String) : Charset.Env × Option (Option (List (List Nat))) :=
   let characters : Option (Option (List (List Nat))) :=
     if chars == "~" then none else if chars == "^" then some none else some (some (Charset.charsOf chars))
   let cl := match characters with | some (some c) => c | _ => []
@@ -119,7 +126,12 @@ def charsetCheck (isTemplate : Bool) (chars encs : String) : CharsetCheck :=
     encode := fun n text => match find n with
       | some (_, _, _, j, per) => Charset.oracle cl j per text
       | none => .crash }
-  fun n => I18n.Charset.checkCharset env n isTemplate characters
+  (env, characters)
+
+/-- C20's charset fragment on the measured classification of every encoding of the line -/
+def charsetCheck (isTemplate : Bool) (chars encs : String) : CharsetCheck :=
+  let w := charsetEnv chars encs
+  fun n => I18n.Charset.checkCharset w.1 n isTemplate w.2
 
 def handle (op : String) (args : List String) : String :=
   match op, args with
@@ -159,6 +171,39 @@ def handle (op : String) (args : List String) : String :=
     match checkAll x (charsetCheck (t == "1") chars encs) (Driver.parseInt now) ⟨⟨t == "1", b == "1"⟩, S comments, entriesOf es⟩ with
     | none => "err crash"
     | some ts => "ok " ++ showTags ts
+  -- the definitions regenerated from lib/domains.py, lib/gettext.py, lib/check/__init__.py
+  | "gparse", [s] =>
+    match Generated.GettextHdr.parse_header (S s) with
+    | .error e => "err " ++ e.name
+    | .ok ls => "ok " ++ (if ls.isEmpty then "-" else ";".intercalate (ls.map showLine))
+  | "gemail", [a, lowerT] =>
+    let db := udb (tableOf lowerT)
+    let b := fun (x : Bool) => if x then "1" else "0"
+    match Generated.Domains.is_email_in_special_domain db.lower (S a), Generated.Domains.is_email_in_dotless_domain (S a) with
+    | .ok sp, .ok dl => s!"ok {b sp} {b dl}"
+    | .error e, _ => "err " ++ e.name
+    | _, .error e => "err " ++ e.name
+  | "gcomments", [t, text] =>
+    match Generated.HdrChk.check_comments (ext [] [] [] [] []) (t == "1") (S text) [] with
+    | .error e => "err " ++ e.name
+    | .ok ts => "ok " ++ showTags ts
+  | "gheaders", [t, es, fuzzy, fieldT] =>
+    match Generated.HdrChk.check_headers (ext [] [] [] (tableOf fieldT) ((listOf "," fuzzy).map S)) (entriesOf es) (t == "1") [] with
+    | .error _ => "err crash"
+    | .ok (ts, _, m) => s!"ok {showTags ts} meta={showMeta m}"
+  | "gmime", [t, ls, chars, encs] =>
+    let w := charsetEnv chars encs
+    match Generated.HdrChk.check_mime (ext [] [] [] [] []) w.1 (metaOf ls) (t == "1") w.2 [] with
+    | .error _ => "err crash"
+    | .ok (ts, enc) => s!"ok {showTags ts} enc={match enc with | some e => H e | none => "~"}"
+  | "gproject", [ls, addrT, schemeT, lowerT] =>
+    match Generated.HdrChk.check_project (ext (tableOf lowerT) (tableOf addrT) (tableOf schemeT) [] []) (metaOf ls) [] with
+    | .error e => "err " ++ e.name
+    | .ok ts => "ok " ++ showTags ts
+  | "gtranslator", [t, ls, addrT, lowerT] =>
+    match Generated.HdrChk.check_translator (ext (tableOf lowerT) (tableOf addrT) [] [] []) (metaOf ls) (t == "1") [] with
+    | .error e => "err " ++ e.name
+    | .ok ts => "ok " ++ showTags ts
   | _, _ => "bad-op"
 
 end I18n.Driver.Hdr
